@@ -9,7 +9,7 @@ HOOKS = {
 ENGINES = [
     {"name": "fault", "path": "/verif/mc/props/C08.py", "serves_properties": ["C08"],
      "kind_free_text": "fault-point enumerator: public-API fault menu x position and sys.settrace call-level injection, snapshot oracle"},
-    {"name": "hist", "path": "/verif/mc/props", "serves_properties": ["C09", "C10", "C11"],
+    {"name": "hist", "path": "/verif/mc/props", "serves_properties": ["C09", "C10", "C11", "C18"],
      "kind_free_text": "explicit-state BFS over the real API: states rebuilt by history replay on fresh "
                        "objects, canonical form by names, invariant + reference model after every transition"},
 ]
@@ -53,5 +53,14 @@ CHECKS["C10"] = dict(
          "and the field seen by the collection's own sensor must obey the same index relation.",
     note="Ops on a collection are enabled only if its whole subtree shares its path length (the property's precondition). Bounded by "
          "tree shapes, depth 2 (3 reduced in thorough), fixed generic numeric values; trusted: pathmodel index map.")
+CHECKS["C18"] = dict(
+    engine="hist", level="model_checking", design_ref="DESIGN.md §4 C18",
+    technique="exhaustive enumeration of (object state x copy kwargs x one mutation x side) histories on real objects with deep signatures and an identity walk",
+    text="For 15 object kinds (all sources, Sensor, TriangularMesh, three collection trees) x path length x 3 style states x with/without "
+         "parent x 11 copy-kwarg forms, copy() is executed and checked (class, equality modulo label, field, parentless, consistent "
+         "forest in the copy, original and its parent untouched against a twin, no shared mutable object or buffer, caller arrays not "
+         "aliased); then each of ~40-50 mutations is applied to one side of a fresh pair and the other side must stay byte-identical.",
+    note="One mutation per pair (depth 2 histories); quick restricts the full mutation alphabet to a subset of states, thorough runs the "
+         "complete product. Plain functions may be shared. Trusted: deep_sig / reachable_mutables walkers.")
 _todo = "check not built yet in this session (planned, see DESIGN.md §4); nothing is claimed for it"
 NOT_APPLICABLE = [{"property_id": f"C{i:02d}", "reason": _todo} for i in range(1, 21) if f"C{i:02d}" not in CHECKS]
